@@ -363,8 +363,27 @@ def build(tier, seed, svg):
             if b % 3 and a % 3:
                 continue
             pairs.append((0, (f0[a], f0[b])))
+        n0 = len(pairs)
+        for ti in (1, 2):
+            f = enumerate_faults(ET.fromstring(TEMPLATES[ti]))
+            red = f[::7]
+            for a in f:
+                for b in red:
+                    if a[0] != b[0] and a is not b:
+                        pairs.append((ti, (a, b)))
         subs.append(Faults(svg, "pairs", pairs))
-        subs[-1].caps_hit = ["pairs: pairs where neither fault index is a multiple of 3 are skipped (%d pairs kept)" % len(pairs)]
+        subs[-1].caps_hit = ["pairs: template 0: pairs where neither fault index is a multiple of 3 are skipped (%d pairs kept); "
+                             "templates 1 and 2: every fault x every 7th fault as second one (%d pairs)" % (n0, len(pairs) - n0)]
+    else:
+        # quick: two faults at once on a thinned fault list (every 17th fault of each template, all pairs in distinct elements)
+        pairs = []
+        for ti, text in enumerate(TEMPLATES):
+            f = enumerate_faults(ET.fromstring(text))[ti::17]
+            for a, b in itertools.combinations(f, 2):
+                if a[0] != b[0]:
+                    pairs.append((ti, (a, b)))
+        subs.append(Faults(svg, "pairs", pairs))
+        subs[-1].caps_hit = ["pairs (quick): every 17th fault of each template, all pairs in distinct elements (%d pairs)" % len(pairs)]
     return subs
 
 
